@@ -97,5 +97,10 @@ def handle : Handler := fun cmd j =>
     pure (match Spec.mergedLocs s with
       | some l => Json.arr (l.map fun (a, b) => Json.arr #[ofChars a, ofChars b]).toArray
       | none => Json.str "loop")
+  | "c25.resolve" => do
+    -- the relocation theorems' side: do their hypotheses hold for the set, and where does `placeOf` put every entry
+    let s ← (getArr j "set") >>= fun a => a.mapM parseObj
+    pure (Json.mkObj [("relocatable", Json.bool (Spec.relocatableB s)),
+      ("placed", Json.arr (s.map fun e => Json.arr #[ofChars e.loc, ofChars (Spec.placeOf s e).loc]).toArray)])
   | _ => none
 end Pkgcore.Driver.C25
